@@ -248,6 +248,9 @@ static MAX_ALLOC: AtomicU64 = AtomicU64::new(0);
 static MAX_ALLOCS: AtomicU64 = AtomicU64::new(0);
 
 pub fn replay_c01(v: &Value) -> Vec<Failure> {
+    if v.get("kind").and_then(|k| k.as_str()) == Some("long_flight") {
+        return crate::tracker::long_flight_check(v["n"].as_u64().unwrap_or(20_000) as usize).into_iter().filter(|f| f.0.starts_with("C01")).map(|(sig, msg)| Failure { sig, msg, replay: v.clone() }).collect();
+    }
     if v.get("kind").and_then(|k| k.as_str()) == Some("long_lived") {
         let n = v["n"].as_u64().unwrap_or(150_000);
         let me = [0x20u8, 0x04, 0x10, 0x41, 0x04, 0x10, 0x41];
@@ -447,6 +450,14 @@ pub fn run_c01(ctx: &Ctx) -> ! {
                     }
                 }
             }));
+            // ... and one aircraft on a long consistent flight (its track grows with every report)
+            let n_flight = 20_000usize;
+            for (sig, msg) in crate::tracker::long_flight_check(n_flight).into_iter().filter(|f| f.0.starts_with("C01")) {
+                st.fail(Failure { sig, msg, replay: json!({"kind":"long_flight","n":n_flight}) });
+            }
+            st.evaluations += n_flight as u64;
+            st.nontrivial_enum += 1;
+            st.class("long flight of one aircraft (20 k position reports)");
             st.evaluations += n_long as u64;
             st.nontrivial_enum += 1;
             st.class("long-lived aircraft (150 k frames)");
